@@ -187,6 +187,8 @@ class RecListener(Listener):
         snap = snapshot_search(self.run.solver, self.full)
         objs = snap.pop("_objs", None)
         self.run.flush_trials(objs)
+        # the listener keeps the list it was given (for later processing): it must still hold this call's trials when read again
+        self.run.kept.append((savedNewPoints, [float(p.GetX()) for p in savedNewPoints]))
         self.run.emit({"ev": "cb", "kind": "enditer",
                        "newx": [q(float(p.GetX())) for p in savedNewPoints],
                        "sol": snapshot_solution(solution, objs), "snap": snap})
@@ -287,6 +289,7 @@ class SolverRun:
             frac = (0.93, 0.07, 0.5)[(self.tid // 3) % 3]
             self.params.startPoint = Point(np.array([float(a) + frac * (float(b) - float(a)) for a, b in zip(lo_, up_)], dtype=np.double), [])
         self.full_snap = full_snap
+        self.kept = []
         self.flushed = 0
         # the box at construction time is what the solver works on: in every fifth plain run the caller overwrites the bounds arrays
         # of its Problem object right after the Solver was built (re-using the object for the next study)
@@ -401,10 +404,17 @@ class SolverRun:
         objs = snap.pop("_objs", None)
         self.flush_trials(objs)
         sol = self.solver.GetResults()
-        e = {"ev": "ret", "name": name, "snap": snap, "sol": snapshot_solution(sol, objs), "ncalc": len(self.rp.log)}
+        e = {"ev": "ret", "name": name, "snap": snap, "sol": snapshot_solution(sol, objs), "ncalc": len(self.rp.log), "kept_ok": self.kept_ok()}
         e.update(extra)
         self.emit(e)
         return sol
+
+    def kept_ok(self):
+        """the lists handed to OnEndIteration so far, read again: each still holds exactly the trials of its own call"""
+        try:
+            return all([float(p.GetX()) for p in lst] == xs for lst, xs in self.kept)
+        except Exception:       # noqa: BLE001
+            return False
 
     def dgi(self, k=1):
         self.emit({"ev": "call", "name": "dgi", "k": int(k)})
